@@ -20,6 +20,10 @@ def run(tier):
     else:
         cfgs2, beh2 = model_behaviours(c, tier, cfgsel=[16], maxuses=2)
     beh += beh2
+    # sub-groups (configuration 22): a sub-group next to arguments of the main handler, one key in both; two uses per line
+    # (a use of the sub-group carries up to two uses of its own)
+    cfgs3, beh3 = model_behaviours(c, tier, cfgsel=[22], maxuses=2)
+    beh += beh3
     script = os.path.join(c.wd, "replay.ndjson")
     n = behaviours_script(cfgs, beh, script, select=lambda b: b["valid"])
     c.notes.append("R: %d distinct spellings of valid lines replayed" % n)
@@ -53,6 +57,31 @@ def run(tier):
                 continue
             acts.append(eval_action(g.spell_line(cfg, line), tag={"k": "line", "line": line_json(line)}))
         blocks.append((cfg, acts))
+    # T1c: sub-groups: the scenario family (sub-group key as last word, words behind the sub-group, shared keys, a sub-group
+    # entered twice, free values around sub-groups) and rich random configurations with one or two sub-groups
+    nsp = 0
+    for _ in range(40 if tier == "quick" else 1000):
+        cfg, lines = arggen.subgroup_scenario(g)
+        acts = []
+        for line in lines:
+            for _ in range(2):
+                w = g.spell_line(cfg, line)
+                if w is not None:
+                    acts.append(eval_action(w, tag={"k": "line", "line": line_json(line)}))
+        nsp += len(acts)
+        blocks.append((cfg, acts))
+    for _ in range(60 if tier == "quick" else 2000):
+        cfg = g.cfg(nargs=g.r.randint(2, 8), constraints=True, subgroups=g.r.choice([1, 1, 2]), cmd=g.r.choice([None, None, None, "key"]),
+                    exclude=arggen.GROWBITS)
+        acts = []
+        for _ in range(nlines):
+            line = gen_valid(g, cfg)
+            w = g.spell_line(cfg, line) if line is not None else None
+            if w is not None:
+                acts.append(eval_action(w, tag={"k": "line", "line": line_json(line)}))
+        nsp += len(acts)
+        blocks.append((cfg, acts))
+    c.notes.append("T1c: %d spellings of valid lines with sub-groups" % nsp)
     # T2: long keys that are prefixes of each other, in every definition order, exact and abbreviated
     fam = [["in", "inp", "input"], ["out", "output", "output-file"], ["val", "value", "values"], ["n", "num", "number"]]
     for names in (fam if tier == "quick" else fam * 3):
